@@ -22,6 +22,28 @@ template <class I> auto mkSlice(SCQ, const std::vector<long long>& a, size_t& p)
 template <class I> auto mkSlice(SCU, const std::vector<long long>& a, size_t& p) { I o = static_cast<I>(a[p++]); I x = static_cast<I>(a[p++]); p++; return md::strided_slice<I, I, std::integral_constant<I, 1>>{o, x, {}}; }
 template <class I> auto mkSlice(SCZ, const std::vector<long long>& a, size_t& p) { I o = static_cast<I>(a[p++]); p += 2; return md::strided_slice<I, std::integral_constant<I, 0>, std::integral_constant<I, 2>>{o, {}, {}}; }
 template <class MP> struct submdspan_mapping_result_view { MP mapping; size_t offset; };
+// ---- a user layout that PROVIDES THE CUSTOMIZATION POINT submdspan_mapping: row-major, and its sub-mapping is the library's result for
+//      layout_right with the offset shifted by 7 elements (a decoy: submdspan must use exactly what the customization point returns)
+struct ShiftLayout {
+  template <class E> struct mapping {
+    using extents_type = E; using index_type = typename E::index_type; using size_type = typename E::size_type; using rank_type = typename E::rank_type; using layout_type = ShiftLayout;
+    md::layout_right::mapping<E> inner;
+    constexpr mapping() noexcept = default;
+    constexpr mapping(const E& e) noexcept : inner(e) {}
+    constexpr const E& extents() const noexcept { return inner.extents(); }
+    constexpr index_type required_span_size() const noexcept { return inner.required_span_size(); }
+    template <class... I> constexpr index_type operator()(I... i) const noexcept { return inner(i...); }
+    static constexpr bool is_always_unique() noexcept { return true; } static constexpr bool is_always_exhaustive() noexcept { return true; } static constexpr bool is_always_strided() noexcept { return true; }
+    static constexpr bool is_unique() noexcept { return true; } static constexpr bool is_exhaustive() noexcept { return true; } static constexpr bool is_strided() noexcept { return true; }
+    constexpr index_type stride(rank_type r) const noexcept { return inner.stride(r); }
+    template <class F> friend constexpr bool operator==(const mapping& a, const mapping<F>& b) noexcept { return a.inner == b.inner; }
+    template <class... Slices> friend constexpr auto submdspan_mapping(const mapping& m, Slices... slices) {
+      auto r = submdspan_mapping(m.inner, slices...);
+      return md::submdspan_mapping_result<decltype(r.mapping)>{r.mapping, r.offset + 7};
+    }
+  };
+};
+template <class E, size_t SP> struct MapOf<KShift, E, SP> { using type = ShiftLayout::mapping<E>; };
 template <class M> const char* layoutName() {
   using L = typename M::layout_type;
   return std::is_same_v<L, md::layout_left> ? "left" : std::is_same_v<L, md::layout_right> ? "right" : std::is_same_v<L, md::layout_stride> ? "stride" : "other";
